@@ -1005,3 +1005,16 @@ package graphql
 //@ func astFromValue
 //@   trusted
 //@   assigns nothing
+
+// ---- did-you-mean suggestions (C12): a defined order ----
+// The sort permutes options and distances together, ties are broken by name, and the candidate
+// names (taken from a Go map) are sorted before they are ranked.
+//@ func suggestionListResult.Swap
+//@   props C12
+//@   requires 0 <= i && i < len(s.Options) && 0 <= j && j < len(s.Options) && len(s.Distances) == len(s.Options)
+//@   ensures s.Options[i] == old(s.Options[j]) && s.Options[j] == old(s.Options[i])
+//@   ensures s.Distances[i] == old(s.Distances[j]) && s.Distances[j] == old(s.Distances[i])
+//@ func getSuggestedFieldNames
+//@   props C12
+//@   nosafety
+//@   orderfree
